@@ -14,9 +14,14 @@ structure St where
   old : Bool
   pdf : Pdf Float
   cp : Option (OmplModel.CellPdf.St Float) := none
+  /-- `cellpdf count`: the counting variant (`Syclop::RegionSet`: new region `1`, then `getWeight + 1`) -/
+  counting : Bool := false
 
 /-- the weights as coded: `1.0` for a new cell, `1.0 / cell->data.size()` otherwise -/
 def cellCfg : OmplModel.CellPdf.Cfg Float := { wOne := 1.0, wCell := fun n => 1.0 / n.toFloat }
+
+/-- `Syclop::RegionSet`: `add(r, 1)`, then `update(elem, getWeight(elem) + 1)` = the insertion count -/
+def countCfg : OmplModel.CellPdf.Cfg Float := { wOne := 1.0, wCell := fun n => n.toFloat }
 
 def parseCoord? (t : String) : Option (List Int) := (t.splitOn ",").mapM parseInt?
 
@@ -46,16 +51,17 @@ def dump (s : Pdf Float) : String :=
 
 def init (ts : List String) : Option St :=
   match ts with
-  | ["pdf"] => some ⟨false, {}, none⟩
-  | ["pdf", "old"] => some ⟨true, {}, none⟩
-  | ["cellpdf"] => some ⟨false, {}, some {}⟩
+  | ["pdf"] => some ⟨false, {}, none, false⟩
+  | ["pdf", "old"] => some ⟨true, {}, none, false⟩
+  | ["cellpdf"] => some ⟨false, {}, some {}, false⟩
+  | ["cellpdf", "count"] => some ⟨false, {}, some {}, true⟩
   | _ => none
 
 def live (s : Pdf Float) (h : Nat) : Bool := (s.idx h).isSome
 
 def cellStep (st : St) (c : OmplModel.CellPdf.St Float) (ts : List String) : St × String :=
   let go (op : OmplModel.CellPdf.COp) : St × String :=
-    match OmplModel.CellPdf.stepC cellCfg c op with
+    match OmplModel.CellPdf.stepC (if st.counting then countCfg else cellCfg) c op with
     | some c' => ({ st with cp := some c' }, "ok | " ++ dump c'.pdf ++ " " ++ cellsDump c')
     | none => (st, "oob | " ++ dump c.pdf ++ " " ++ cellsDump c)
   match ts with
